@@ -541,6 +541,23 @@ mod tests {
     }
 
     #[test]
+    fn glyphs_number_value_split_after_trivia() {
+        // the comment used to be handed to the sink after (and in place of) the split tokens
+        let fea = "${a #\u{e9}\n b-c}";
+        let (out, errors, errstr) = debug_parse_output(fea, |parser| {
+            expect_glyphs_number_value(parser, TokenSet::EMPTY);
+        });
+        assert!(errors.is_empty(), "{errstr}");
+        let tokens = out
+            .as_node()
+            .unwrap()
+            .iter_tokens()
+            .map(|t| t.as_str())
+            .collect::<Vec<_>>();
+        assert_eq!(tokens[tokens.len() - 4..], ["b", "-", "c", "}"]);
+    }
+
+    #[test]
     fn name_string_omits_quotes() {
         let parse_name = |fea| {
             let (token, _err, _) = debug_parse_output(fea, |parser| {
